@@ -215,6 +215,21 @@ void partitionOps(NifFile& nif, const std::string& shapeName, const std::string&
 			partitionEvent(nif, shape, "DeletePartitions+Update", caseJson, out);
 		}
 	}
+	// ids beyond the given partition list and no unassigned triangle: every id up to the highest one becomes a partition
+	{
+		NifFile copy(nif);
+		if (auto cs = byName(copy, shapeName)) {
+			NiVector<BSDismemberSkinInstance::PartitionInfo> pi3;
+			std::vector<int> tp3;
+			if (copy.GetShapePartitions(cs, pi3, tp3) && !tp3.empty() && std::find(tp3.begin(), tp3.end(), -1) == tp3.end()) {
+				int np3 = (int) pi3.size();
+				for (size_t i = 0; i < tp3.size(); i++) tp3[i] = int(i % size_t(np3 + 2));
+				copy.SetShapePartitions(cs, pi3, tp3);
+				copy.UpdateSkinPartitions(cs);
+				partitionEvent(copy, cs, "SetShapePartitions(new ids)+Update", caseJson, out);
+			}
+		}
+	}
 	// save + reload
 	{
 		NifFile copy(nif);
@@ -259,6 +274,9 @@ int cmdC10(int argc, char** argv) {
 	size_t boneCounts[] = {1, 2, 5, 17, 18, 19, 30, 79, 80, 81, 100};
 	for (auto v : vers)
 		for (auto nb : boneCounts) cases.push_back({"", v, nb, 0});
+	// many influences per vertex (the builder keeps the four strongest): 5..9 per vertex, around and above the bone limits
+	for (auto v : vers)
+		for (size_t inf = 5; inf <= 9; inf++) cases.push_back({"", v, 40, 1000 + inf});
 	for (size_t i = 0; i < nrandom; i++) cases.push_back({"", vers[i % 4], size_t(2 + (i * 7) % 40), size_t(20 + (i * 13) % 90)});
 	{ Out trunc(outPath); }
 	size_t crashes = runForkedCases(
@@ -281,17 +299,24 @@ int cmdC10(int argc, char** argv) {
 			}
 			// ribbon: vertex i is weighted to bones spread over the bone count so that long triangle runs need many bones
 			size_t nb = cases[k].nbones;
-			size_t nv = cases[k].nv ? cases[k].nv : std::max<size_t>(8, nb * 2 + 2);
+			size_t influences = cases[k].nv >= 1000 ? cases[k].nv - 1000 : 0;
+			size_t nv = influences ? 30 : (cases[k].nv ? cases[k].nv : std::max<size_t>(8, nb * 2 + 2));
 			std::vector<Triangle> tris;
 			for (size_t i = 0; i + 2 < nv; i++) tris.emplace_back(uint16_t(i), uint16_t(i + 1), uint16_t(i + 2));
 			NifFile nif;
 			nif.Create(versionByName(cases[k].ver));
 			NiShape* shape = buildShape(nif, "S", nv, tris, true);
 			if (!shape) return;
-			bool random = cases[k].nv != 0;
+			bool random = cases[k].nv != 0 && !influences;
 			skinShape(nif, shape, nb, [&](uint16_t v) {
 				std::vector<std::pair<int, float>> w;
-				if (!random) {
+				if (influences) {
+					// vertex v: bones v, v+1, .. (mod nb) with strictly decreasing weights summing to one
+					float total = 0;
+					for (size_t i = 0; i < influences; i++) total += float(influences - i);
+					for (size_t i = 0; i < influences; i++) w.emplace_back(int((v + i) % nb), float(influences - i) / total);
+				}
+				else if (!random) {
 					int b = int((size_t(v) * nb) / nv);
 					w.emplace_back(b, 0.75f);
 					if (b + 1 < (int) nb) w.emplace_back(b + 1, 0.25f);
@@ -314,7 +339,7 @@ int cmdC10(int argc, char** argv) {
 				return w;
 			});
 			JObj c;
-			c.add("ver", cases[k].ver).add("bones", (long long) nb).add("nv", (long long) nv).add("random", random);
+			c.add("ver", cases[k].ver).add("bones", (long long) nb).add("nv", (long long) nv).add("random", random).add("influences", (long long) influences);
 			partitionOps(nif, "S", c.done(), rng, out);
 		},
 		[&](size_t k, const std::string& why, FILE* out) {
